@@ -16,6 +16,7 @@
   Proofs: IocProofs/Lemmas/M2InvStep.lean (one characterisation of `step`) and IocProofs/Lemmas/M2Inv.lean (the invariant).
 -/
 import IocProofs.Lemmas.M2Inv
+import IocProofs.Lemmas.SemFactory2
 namespace Ioc.C01
 open Ioc.M2
 
@@ -135,5 +136,14 @@ theorem C01_every_quiescent_state_counterexample :
     WF dangling ∧ (final dangling).stack = [] ∧ (final dangling).status = .failed 2 .refresh ∧
     raw 0 ∈ (final dangling).fields 1 0 ∧ (final dangling).l1 1 = some (raw 1) ∧ (final dangling).l1 0 = none :=
   ⟨⟨fun _ => rfl, fun _ => rfl⟩, by decide, by decide, by decide, by decide, by decide⟩
+
+/-- GetComponentByName (factory.go:131-137), regenerated: the instance (`Raw`) of exactly the meta doGetComponent returned —
+    the lookup adds no copy of its own; an error of doGetComponent is returned as it is -/
+theorem C01_code_GetComponentByName (n : Nat) (res : Option Nat) :
+    Go.run (Sem.gcbPrims res) Progs.fac_GetComponentByName [.int n] () =
+      some (match res with
+            | some v => .tuple [.ref n (1000 + v), .nil]
+            | none => .tuple [.nil, Sem.errF], ()) :=
+  Sem.getComponentByName_sem n res
 
 end Ioc.C01
